@@ -641,7 +641,7 @@ class MethodCtx:
                 return d
         return None
 
-    def general_for(self, s, lst, rest, env, mode):
+    def general_for(self, s, lst, rest, env, mode, elt="Z", prelude0=""):
         pair = isinstance(s.target, ast.Tuple) and len(s.target.elts) == 2 and all(isinstance(x, ast.Name) for x in s.target.elts)
         if s.orelse or not (isinstance(s.target, ast.Name) or pair):
             _u(s, "for/else or an unsupported loop target")
@@ -675,7 +675,8 @@ class MethodCtx:
         for n in ast.walk(s):
             if isinstance(n, (ast.Assign, ast.AugAssign, ast.AnnAssign)):
                 for t in (n.targets if isinstance(n, ast.Assign) else [n.target]):
-                    if isinstance(t, ast.Name) and t.id in env.locals and t.id not in assigned and t.id != s.target.id:
+                    if isinstance(t, ast.Name) and t.id in env.locals and t.id not in assigned \
+                            and not (isinstance(s.target, ast.Name) and t.id == s.target.id):
                         assigned.append(t.id)
         with_self = not self.pure
         benv = env.copy()
@@ -688,9 +689,9 @@ class MethodCtx:
                 benv.known_in.add((itsrc, k1))
             prelude = f"let {k1} := fst kv_ in let {k2} := snd kv_ in\n"
         else:
-            x, xty = s.target.id, "Z"
-            benv.locals[x] = "Z"
-            prelude = ""
+            x, xty = s.target.id, coq_ty(elt)
+            benv.locals[x] = elt
+            prelude = prelude0
         benv.narrow = {p: w for p, w in benv.narrow.items() if not p.startswith("self.") and p.split(".")[0] not in assigned}
         body = prelude + self.block(list(s.body), benv, ("gloop", tuple(assigned), with_self, has_ret))
         rty = [f"(option {coq_ty(self.ret_ty)})"] if has_ret else []
@@ -1155,6 +1156,26 @@ class MethodCtx:
                 f"{textwrap.indent(body, '    ')}) {it_name(s)} {init} in\n" + self.block(rest, env, mode))
 
     def while_stmt(self, s, rest, env, mode):
+        # while self.H: x = heapq.heappop(self.H); <body>   (H a declared heap that the body does not touch otherwise):
+        # one iteration per element of the current heap, in heap order, each taking the head off
+        t = s.test
+        if isinstance(t, ast.Attribute) and isinstance(t.value, ast.Name) and t.value.id == "self" and t.attr in self.cls.heaps \
+                and s.body and isinstance(s.body[0], ast.Assign) and len(s.body[0].targets) == 1 \
+                and isinstance(s.body[0].targets[0], ast.Name) and self._list_pop(s.body[0].value) == (t.attr, "first") \
+                and not s.orelse and not self.pure and mode == "method":
+            f = t.attr
+            src = f"self.{f}"
+            for st in s.body[1:]:
+                for n in ast.walk(st):
+                    if isinstance(n, ast.Attribute) and ast.unparse(n) == src:
+                        _u(n, "the heap being drained is used again inside the loop body")
+            x = s.body[0].targets[0].id
+            fake = ast.For(target=ast.Name(id=x, ctx=ast.Store()), iter=ast.Name(id="heap_", ctx=ast.Load()),
+                           body=list(s.body[1:]) or [ast.Pass()], orelse=[], lineno=s.lineno)
+            ast.copy_location(fake, s)
+            fld = self.cls.fld(f)
+            return self.general_for(fake, f"({fld} self)", rest, env, mode, elt=self.cls.fields[f][1],
+                                    prelude0=f"let self := set_{fld} self (tl ({fld} self)) in\n")
         # while self.L and self.L[0] < cutoff: self.L.pop(0)      ==> drop-while
         try:
             t = s.test
